@@ -34,6 +34,10 @@ claim("C03", "who-may-write state table with constant evaluation, atomic-transit
       "Static rules over engine/socket.go and transports/transport.go: the ready state is written only by the four transitions of the table, each strictly forward and each a single CompareAndSwap/Swap whose result licenses its effects (the structural form of 'exactly one close event under every interleaving'); the close epilogue (timers cleared, both callback queues cleared, transport listeners removed) precedes the single Emit(close), which only OnClose may emit; every OnClose call carries a documented reason constant; every session-level emit of the silenced events and every effect of sendPacket is dominated by a state test excluding closed (closing); listener registrations are paired with removals; transport Close/OnClose are guarded. That no schedule yields a second event follows from the atomic transitions by a pencil argument; schedules are not explored.",
       TB, "DESIGN.md §3 C03")
 
+claim("C04", "who-may-write rules for the client table and counter, pairing on all exits (dominance), lookup-edge rules, registration-window typestate, SSA-free value identity via reaching definitions, id construction table",
+      "Static rules over engine/base-server.go, engine/server.go, utils/base64id.go: the client table and counter are written only by Handshake (one Store + one Add(1) paired on every exit, after NewSocket, with NewSocket's socket); the removal decrements only when LoadAndDelete removed the entry and is registered with Once on the same socket; after attaching that listener Handshake re-checks for an already-closed session (registration window); unknown ids are answered UNKNOWN_SID / never reach OnRequest or MaybeUpgrade; ids are URL-safe base64 of a buffer embedding all 64 bits of an atomic sequence (injective ⇒ never repeat in a process) and a failed generation creates no session. Quiescent equality of table, counter and live set under all histories is not decided.",
+      TB, "DESIGN.md §3 C04")
+
 UNDER_CONSTRUCTION = "static rule set designed in DESIGN.md §3 but its checker is not built yet in this revision; not claimed until it is"
 
 def main():
